@@ -53,7 +53,7 @@ CLAIMS = {
  "C16": ("differential property-based testing between two builds of the same sources (overflow-checked vs plain optimised, worker process) + totality under panic capture and a watchdog; proptest inputs with specials for 1799 registered operations",
          "Each registered public operation is run on generated inputs in an overflow-checked build (no panic allowed except the committed todo!() stub table; watchdog for non-termination) and the optimised build must return identical bits.",
          "DESIGN.md section 6, C16"),
- "C15": ("property-based testing: strided complete scan of each unary function's domain (stride 256 quick / 8 thorough, offset from the seed) + proptest boundary inputs and pairs; oracle = minimum encoding distance to the posit roundings of a widened libm interval",
+ "C15": ("property-based testing: scan of each unary function's 2^32 inputs (every 64th in quick, offset from the seed; ALL inputs in thorough), reduction-boundary lattices (k pi/2, (k+1/2) ln 2) + proptest boundary inputs and pairs; oracle = minimum encoding distance to the posit roundings of a widened libm interval",
          "The crate's answer for every generated/enumerated in-domain argument must lie within the stated number of encodings of the correctly rounded value (reference error can only hide, never create, a violation); NaR and out-of-domain clauses are asserted exactly. The evidence carries the full ulp-error histogram per function.",
          "DESIGN.md section 6, C15"),
  "C17": ("differential property-based testing between spellings (no reference model): all P8 pairs + proptest operands; lock-step quires over generated histories",
